@@ -99,6 +99,29 @@ def coq_prepare():
             raise RuntimeError("coq_makefile failed:\n" + out)
 
 
+REQ_RE = re.compile(r"\b(?:Model|Proofs|Gen|Spec|Properties)\.[A-Za-z_][A-Za-z0-9_]*")
+
+
+def dep_closure(rel):
+    """the .v files (relative to coq/) that `rel` transitively requires from this development"""
+    seen = []
+    todo = [rel]
+    while todo:
+        f = todo.pop()
+        if f in seen:
+            continue
+        seen.append(f)
+        try:
+            with open(os.path.join(COQ, f)) as fh:
+                src = strip_coq_comments(fh.read())
+        except FileNotFoundError:
+            continue
+        for stmt in re.findall(r"(?:From\s+MPV\s+)?Require\s+(?:Import|Export)?[^.]*(?:\.[A-Za-z_][^.]*)*\.", src):
+            for m in REQ_RE.findall(stmt):
+                todo.append(m.replace(".", "/") + ".v")
+    return seen
+
+
 def forbidden_scan(files=None):
     """Scan the development for anything that declares an axiom or weakens the kernel."""
     hits = []
@@ -403,7 +426,9 @@ class Ctx:
         thms = property_theorems(prop_file)
         names = [n for _, n in thms]
         self.cov["obligations"] += len(names)
-        hits = forbidden_scan()
+        # audit the files this property's obligations depend on (another property's work in
+        # progress must not raise an alarm here); Print Assumptions below is the kernel-level audit
+        hits = forbidden_scan(dep_closure(prop_file))
         if hits:
             self.broken_obligations.append({"obligation": "forbidden-token scan", "detail": hits[:10]})
             return False
